@@ -67,9 +67,9 @@ def oracle(k, ops):
 
 
 def strip(c):
-    """dimension caches are not part of the canonical model snapshot (weights, labels, maps, parameters, counters)"""
+    """the fitted flag is not part of the compared snapshot; everything else in __dict__ is (weights, labels, maps, parameters, counters, remembered widths)"""
     if isinstance(c, dict):
-        return {k: strip(v) for k, v in c.items() if k not in ("dim_", "dim_original", "is_fitted_")}
+        return {k: strip(v) for k, v in c.items() if k not in ("is_fitted_",)}
     if isinstance(c, list):
         return [strip(x) for x in c]
     return c
